@@ -48,8 +48,10 @@ theorem mods_activate (cfg : Cfg) (s : Zchd) (k : Nat) (outs : List ZchOut) (ctx
           (if !s.capsWord then
             (if s.lsft then [OsEv.down KEY_LEFTSHIFT] else []) ++ (if s.rsft then [OsEv.down KEY_RIGHTSHIFT] else [])
            else []) := by
+        have hc0 : ∀ p : List ZchOut, commonPrefixLen p [] = 0 := by
+          intro p; cases p <;> rfl
         unfold activate
-        simp [wantsSmartSpace, sendKeys]
+        cases hpa : s.priorActivation <;> simp [wantsSmartSpace, sendKeys, hc0, hpa]
       rw [hev, run_append]
       have hb1 : modsOf (b.run [OsEv.down k]) = modsOf b := by
         simp only [run_cons, run_nil]; exact mods_step_down b k hnt
@@ -68,10 +70,11 @@ theorem softReset_flags (s : Zchd) : flagsOf s.softReset = flagsOf s := rfl
 
 theorem punctStage_mods (cfg : Cfg) (s : Zchd) (k : Nat) (b : Buf) :
     flagsOf (punctStage cfg s k).1 = flagsOf s ∧ modsOf (b.run (punctStage cfg s k).2) = modsOf b := by
-  unfold punctStage
-  split
-  · exact ⟨rfl, mods_run_bspc b⟩
-  · exact ⟨rfl, rfl⟩
+  cases h : punctFires cfg s k
+  · rw [punctStage_none cfg s k ((punctFires_false_iff cfg s k).mp h)]
+    exact ⟨rfl, rfl⟩
+  · rw [punctStage_fires cfg s k h]
+    exact ⟨rfl, mods_run_bspc b⟩
 
 theorem enterKey_flags (cfg : Cfg) (s : Zchd) (k : Nat) : flagsOf (enterKey cfg s k) = flagsOf s := by
   unfold enterKey Zchd.activateChordDeadline Zchd.stateChange flagsOf
@@ -80,7 +83,9 @@ theorem enterKey_flags (cfg : Cfg) (s : Zchd) (k : Nat) : flagsOf (enterKey cfg 
 theorem findChord_out_mem (cfg : Cfg) (s : Zchd) :
     (∀ p a, findChord cfg s = .prio p a → ∃ n ∈ cfg.dict, n.out = a) ∧
     (∀ a, findChord cfg s = .top a → ∃ n ∈ cfg.dict, n.out = a) := by
-  unfold findChord
+  unfold findChord findChordK
+  have key : ∀ p a', lookupLevel cfg.dict p s.inputKeys = .hasValue a' → ∃ n ∈ cfg.dict, n.out = a' :=
+    fun p a' h' => lookupLevel_hasValue_mem h'
   constructor
   · intro p a h
     cases hp : s.prioritized with
@@ -93,7 +98,7 @@ theorem findChord_out_mem (cfg : Cfg) (s : Zchd) :
       | hasValue a' =>
         simp only [hlp, Found.prio.injEq] at h
         obtain ⟨_, rfl⟩ := h
-        exact lookupLevel_hasValue_mem hlp
+        exact key q _ hlp
       | isSubset =>
         simp only [hlp] at h
         cases hl : lookupLevel cfg.dict [] s.inputKeys <;> simp [hl] at h
@@ -101,13 +106,11 @@ theorem findChord_out_mem (cfg : Cfg) (s : Zchd) :
         simp only [hlp] at h
         cases hl : lookupLevel cfg.dict [] s.inputKeys <;> simp [hl] at h
   · intro a h
-    have key : ∀ a', lookupLevel cfg.dict [] s.inputKeys = .hasValue a' → ∃ n ∈ cfg.dict, n.out = a' :=
-      fun a' h' => lookupLevel_hasValue_mem h'
     cases hp : s.prioritized with
     | none =>
       simp only [hp] at h
       cases hl : lookupLevel cfg.dict [] s.inputKeys with
-      | hasValue a' => simp only [hl, Found.top.injEq] at h; subst h; exact key _ hl
+      | hasValue a' => simp only [hl, Found.top.injEq] at h; subst h; exact key _ _ hl
       | isSubset => simp [hl] at h
       | neither => simp [hl] at h
     | some q =>
@@ -117,13 +120,13 @@ theorem findChord_out_mem (cfg : Cfg) (s : Zchd) :
       | isSubset =>
         simp only [hlp] at h
         cases hl : lookupLevel cfg.dict [] s.inputKeys with
-        | hasValue a' => simp only [hl, Found.top.injEq] at h; subst h; exact key _ hl
+        | hasValue a' => simp only [hl, Found.top.injEq] at h; subst h; exact key _ _ hl
         | isSubset => simp [hl] at h
         | neither => simp [hl] at h
       | neither =>
         simp only [hlp] at h
         cases hl : lookupLevel cfg.dict [] s.inputKeys with
-        | hasValue a' => simp only [hl, Found.top.injEq] at h; subst h; exact key _ hl
+        | hasValue a' => simp only [hl, Found.top.injEq] at h; subst h; exact key _ _ hl
         | isSubset => simp [hl] at h
         | neither => simp [hl] at h
 
